@@ -3,9 +3,9 @@ package main
 import (
 	"fmt"
 	"go/constant"
-	"math/big"
 	"go/token"
 	"go/types"
+	"math/big"
 	"sort"
 	"strings"
 
@@ -31,48 +31,50 @@ type Obligation struct {
 	Ms     int64
 	Model  string
 	Script string
+	Probes map[string]Val
+	Hunted bool // Model comes from the quantifier-free weakening (candidate only)
 }
 
 type Cont func(st *State, fr *Frame, ret Val)
 
 type Exec struct {
-	prog     *Program
-	specs    *Specs
-	nfresh   int
-	nalloc   int
-	sorts    map[string]string
-	heapInit map[string]string
-	heapSort map[string]string
-	cntInit  map[string]string
-	obls     []*Obligation
-	notes    map[string]bool // unsupported / abstraction notes
-	used     map[string]bool // externals / inlined / assumed contracts used
-	curKey   string
-	paths    int
-	maxPaths int
-	tids     map[string]int
-	ordinals map[string]int // per (func,kind,what) ordinal counters are per path; we key by instruction
-	instrOrd map[ssa.Instruction]int
-	mode     string // "verify" (full) or "sweep" (discipline only)
-	wantProp string
-	pathEnds int
-	covers   map[string]bool // clause reached with this antecedent etc.
-	inlineDepth int
-	topFrame *Frame
-	propFilter func(labels []string) bool
-	known      map[string]Val
-	globals    map[string]bool
-	sliceVals  map[string][]Val
-	cellVals   map[string]Val
-	typeCache  map[string]types.Type
-	modCache   map[*ssa.Function]*modSet
+	prog         *Program
+	specs        *Specs
+	nfresh       int
+	nalloc       int
+	sorts        map[string]string
+	heapInit     map[string]string
+	heapSort     map[string]string
+	cntInit      map[string]string
+	obls         []*Obligation
+	notes        map[string]bool // unsupported / abstraction notes
+	used         map[string]bool // externals / inlined / assumed contracts used
+	curKey       string
+	paths        int
+	maxPaths     int
+	tids         map[string]int
+	ordinals     map[string]int // per (func,kind,what) ordinal counters are per path; we key by instruction
+	instrOrd     map[ssa.Instruction]int
+	mode         string // "verify" (full) or "sweep" (discipline only)
+	wantProp     string
+	pathEnds     int
+	covers       map[string]bool // clause reached with this antecedent etc.
+	inlineDepth  int
+	topFrame     *Frame
+	propFilter   func(labels []string) bool
+	known        map[string]Val
+	globals      map[string]bool
+	sliceVals    map[string][]Val
+	cellVals     map[string]Val
+	typeCache    map[string]types.Type
+	modCache     map[*ssa.Function]*modSet
 	disciplineOn bool
-	uncovered  map[string]bool
-	closeSites map[string]bool
+	uncovered    map[string]bool
+	closeSites   map[string]bool
 	openFindings map[string]bool
-	specErrs   int
-	retCount   map[string]int
-	probes     map[string]map[string]Val
+	specErrs     int
+	retCount     map[string]int
+	probes       map[string]map[string]Val
 }
 
 func newExec(p *Program, sp *Specs) *Exec {
@@ -247,9 +249,27 @@ func (ex *Exec) load(st *State, p Val) Val {
 		ex.unsupported("load through pointer without array %v", p.Typ)
 		return ex.symVal(st, el, "bad")
 	}
+	if strings.HasPrefix(p.Arr, "@slice:") {
+		// element of a value-semantic slice: p.T is the slice, p.Prefix the index
+		so := strings.TrimPrefix(p.Arr, "@slice:")
+		if structOf(el) != nil {
+			ex.unsupported("slice of struct values")
+			return ex.symVal(st, el, "bad")
+		}
+		v := ex.mkVal(el, "("+satFn(so)+" "+p.T+" "+p.Prefix+")")
+		if isRefLike(el) {
+			v.T = st.bind("elem", "Int", v.T)
+			st.assume(fmt.Sprintf("(> %s %d)", v.T, -(ex.nalloc + 1)))
+		}
+		return v
+	}
 	so := sortOf(el)
 	if so == "" {
 		so = "Int"
+	}
+	if cv, ok := st.cells[p.Arr+"@"+p.T]; ok {
+		cv.Typ = el
+		return cv
 	}
 	t := st.read(p.Arr, so, p.T)
 	v := ex.mkVal(el, t)
@@ -257,6 +277,15 @@ func (ex *Exec) load(st *State, p Val) Val {
 	v.OriginRef = p.T
 	if strings.HasPrefix(p.Arr, "global.") {
 		ex.globalFacts(st, p.T, t, el)
+	}
+	if sl, ok := types.Unalias(el).Underlying().(*types.Slice); ok {
+		if pe := derefType(sl.Elem()); pe != nil && strings.HasPrefix(typeKey(pe), "goatorepo.") {
+			// A-proto: repeated message fields never contain nil elements
+			t2 := st.bind("ld", "Int", t)
+			v.T = t2
+			st.assume("(forall ((j Int)) (! (=> (and (<= 0 j) (< j (slen " + t2 + "))) (distinct (sat_i " + t2 + " j) 0)) :pattern ((sat_i " + t2 + " j))))")
+			ex.use("assumed: A-proto repeated message fields of envelopes contain no nil elements")
+		}
 	}
 	if v.S == "Int" && (isRefLike(el)) {
 		// cannot be an object allocated later on this path
@@ -286,6 +315,10 @@ func (ex *Exec) store(st *State, p Val, v Val) {
 		ex.unsupported("store through pointer without array %v", p.Typ)
 		return
 	}
+	if strings.HasPrefix(p.Arr, "@slice:") {
+		ex.unsupported("store into slice element (value-semantic slices are read-only)")
+		return
+	}
 	if v.isComposite() {
 		ex.unsupported("composite store into scalar cell %s", p.Arr)
 		return
@@ -298,6 +331,12 @@ func (ex *Exec) store(st *State, p Val, v Val) {
 		so = "Int"
 	}
 	st.write(p.Arr, so, p.T, v.T)
+	if isFreshRef(p.T) && !strings.HasPrefix(p.Arr, "@") {
+		if st.cells == nil {
+			st.cells = map[string]Val{}
+		}
+		st.cells[p.Arr+"@"+p.T] = v
+	}
 	if v.Fn != nil || v.Dyn != nil {
 		// remember statically-known function / dynamic values stored in cells of this path
 		ex.remember(st, p.Arr, p.T, v)
@@ -346,6 +385,30 @@ func (ex *Exec) oblige(st *State, kind, name string, labels []string, goal strin
 	return ob
 }
 
+// attachProbes evaluates the replay driver's probes at the point where the obligation arises.
+func (ex *Exec) attachProbes(st *State, fr *Frame, ob *Obligation) {
+	if ob == nil || ob.Trivial || fr == nil {
+		return
+	}
+	d := tmplDrivers[ex.curKey]
+	if d == nil || fr.key != ex.curKey {
+		return
+	}
+	m := map[string]Val{}
+	for _, p := range d.Probes {
+		e, err := parseSpecExpr(p[1])
+		if err != nil {
+			continue
+		}
+		ev := &evalCtx{ex: ex, st: st, fr: fr}
+		v := ev.eval(e)
+		if len(ev.err) == 0 && !v.isComposite() {
+			m[p[0]] = v
+		}
+	}
+	ob.Probes = m
+}
+
 // safety obligations are generated only in functions marked nopanic
 func (ex *Exec) safety(st *State, fr *Frame, instr ssa.Instruction, kind, what, goal string) {
 	sp := ex.topFrame.spec
@@ -362,7 +425,8 @@ func (ex *Exec) safety(st *State, fr *Frame, instr ssa.Instruction, kind, what, 
 	if instr != nil {
 		name += fmt.Sprintf("#%d", ex.ordinalOf(fr, instr, kind))
 	}
-	ex.oblige(st, kind, name, sp.NoPanic.Labels, goal, sp.NoPanic, ex.posOf(instr))
+	ob := ex.oblige(st, kind, name, sp.NoPanic.Labels, goal, sp.NoPanic, ex.posOf(instr))
+	ex.attachProbes(st, fr, ob)
 }
 
 // ordinalOf numbers instructions of the same kind within their function by source order,
@@ -664,6 +728,11 @@ func (ex *Exec) block(st *State, fr *Frame, b *ssa.BasicBlock, pred *ssa.BasicBl
 		// havoc
 		for _, ph := range phis {
 			nv := ex.symVal(st, ph.Type(), "phi."+ph.Comment)
+			if ph.Comment == "rangeindex" {
+				// compiler-generated slice range index: starts at -1, incremented before the bound test
+				st.assume("(and (>= " + nv.T + " (- 1)) (<= " + nv.T + " 4611686018427387903))")
+				nv.Lo, nv.Hi = big.NewInt(-1), lenHi
+			}
 			fr.vals[ph] = nv
 			if ph.Comment != "" {
 				fr.names[ph.Comment] = nv
@@ -902,6 +971,11 @@ func (ex *Exec) simple(st *State, fr *Frame, in ssa.Instruction) {
 		}
 		ref := ex.allocRef()
 		fr.vals[x] = Val{T: ref, S: "Int", Typ: x.Type(), Fn: fn, Binds: binds}
+		if ckey := ex.prog.Keys[fn]; ckey != "" {
+			csp := ex.specs.Funcs[ckey]
+			cpf := ex.pseudoFrame(fn, ckey, csp, nil, binds, st)
+			ex.closureEntry(st, cpf, fn, binds, csp, fr, x)
+		}
 	case *ssa.MakeChan:
 		ref := ex.allocRef()
 		sz := ex.val(st, fr, x.Size)
@@ -910,13 +984,23 @@ func (ex *Exec) simple(st *State, fr *Frame, in ssa.Instruction) {
 		st.write("chlen", "Int", ref, "0")
 		v := ex.mkVal(x.Type(), ref)
 		ord := ex.ordinalOf(fr, x, "makechan")
+		classed := false
 		if fr.spec != nil {
 			for _, g := range fr.spec.MakeChans {
 				if g.Ord == ord {
 					tv := ex.evalSpec(st, fr, g.Tag, nil)
 					st.assume("(= (ch_tag " + ref + ") " + tv.T + ")")
+					if cc := ex.specs.Classes[g.Class]; cc != nil {
+						st.assume(fmt.Sprintf("(= (ch_class %s) %d)", ref, cc.ID))
+						classed = true
+					} else if g.Class != "" {
+						ex.specError("unknown channel class %s", g.Class)
+					}
 				}
 			}
+		}
+		if !classed {
+			st.assume("(= (ch_class " + ref + ") 0)")
 		}
 		fr.vals[x] = v
 	case *ssa.MakeMap:
